@@ -41,6 +41,7 @@ impl Rep {
 
 pub fn run(obligation: &str) -> i32 {
     let mut rep = Rep::new();
+    if obligation.starts_with("C03.") { c03_apply_tagenv(&mut rep); return rep.finish("C03_apply_tagenv"); }
     if obligation.starts_with("C02.needs_unnesting") { c02_needs_unnesting(&mut rep); return rep.finish("C02_unnesting"); }
     if obligation.starts_with("C02.") || obligation.starts_with("C05.") { c02_c05_assembly(&mut rep); return rep.finish("C02_C05_assembly"); }
     if obligation.starts_with("C04.") { c04_bounds(&mut rep); return rep.finish("C04_bounds"); }
@@ -544,4 +545,96 @@ fn c04_bounds(rep: &mut Rep) {
             _ => rep.check("C04.union_optional.open_end_stays_open", matches!(&r, Ok(None)), d),
         }
     } } }
+}
+
+// ---------------------------------------------------------------------------------------------- C03 (unit C03_apply_tagenv)
+// Executable copy of `type_applied` / `resolved`: the expected tree is built by an independent recursive function and
+// compared with what the real apply_tagging_environment leaves behind, over generated type trees of depth <= 3.
+fn c03_combine(d: TaggingEnvironment, k: TaggingEnvironment) -> TaggingEnvironment { if k == TaggingEnvironment::Automatic { d } else { k } }
+fn c03_res(t: &Option<AsnTag>, env: TaggingEnvironment) -> Option<AsnTag> {
+    t.as_ref().map(|t| AsnTag { environment: c03_combine(env, t.environment), tag_class: t.tag_class, id: t.id })
+}
+fn c03_expected(t: &ASN1Type, env: TaggingEnvironment) -> ASN1Type {
+    let seq = |s: &SequenceOrSet| SequenceOrSet {
+        components_of: s.components_of.clone(), extensible: s.extensible, constraints: s.constraints.clone(),
+        members: s.members.iter().map(|m| SequenceOrSetMember { name: m.name.clone(), tag: c03_res(&m.tag, env), ty: c03_expected(&m.ty, env),
+            optionality: m.optionality.clone(), is_recursive: m.is_recursive, constraints: m.constraints.clone() }).collect(),
+    };
+    let of = |s: &SequenceOrSetOf| SequenceOrSetOf { constraints: s.constraints.clone(), element_tag: c03_res(&s.element_tag, env),
+        element_type: Box::new(c03_expected(&s.element_type, env)), is_recursive: s.is_recursive };
+    match t {
+        ASN1Type::Sequence(s) => ASN1Type::Sequence(seq(s)),
+        ASN1Type::Set(s) => ASN1Type::Set(seq(s)),
+        ASN1Type::Choice(c) => ASN1Type::Choice(Choice { extensible: c.extensible, constraints: c.constraints.clone(),
+            options: c.options.iter().map(|o| ChoiceOption { name: o.name.clone(), tag: c03_res(&o.tag, env), ty: c03_expected(&o.ty, env),
+                constraints: o.constraints.clone(), is_recursive: o.is_recursive }).collect() }),
+        ASN1Type::SequenceOf(s) => ASN1Type::SequenceOf(of(s)),
+        ASN1Type::SetOf(s) => ASN1Type::SetOf(of(s)),
+        other => other.clone(),
+    }
+}
+struct Lcg(u64);
+impl Lcg { fn next(&mut self, n: usize) -> usize { self.0 = self.0.wrapping_mul(6364136223846793005).wrapping_add(1442695040888963407); ((self.0 >> 33) as usize) % n } }
+fn c03_tag(r: &mut Lcg) -> Option<AsnTag> {
+    if r.next(3) == 0 { return None; }
+    let env = [TaggingEnvironment::Automatic, TaggingEnvironment::Implicit, TaggingEnvironment::Explicit][r.next(3)];
+    let class = [TagClass::ContextSpecific, TagClass::Application, TagClass::Private, TagClass::Universal][r.next(4)];
+    Some(AsnTag { environment: env, tag_class: class, id: [0u64, 1, 30, 31, 200, u64::MAX][r.next(6)] })
+}
+fn c03_type(r: &mut Lcg, depth: usize) -> ASN1Type {
+    let k = if depth == 0 { 5 + r.next(3) } else { r.next(8) };
+    let members = |r: &mut Lcg| (0..r.next(4)).map(|i| SequenceOrSetMember { name: format!("m{i}"), tag: c03_tag(r), ty: c03_type(r, depth.saturating_sub(1)),
+        optionality: if r.next(2) == 0 { Optionality::Required } else { Optionality::Optional }, is_recursive: r.next(2) == 0, constraints: vec![] }).collect::<Vec<_>>();
+    match k {
+        0 => ASN1Type::Sequence(SequenceOrSet { components_of: vec![], extensible: if r.next(2) == 0 { None } else { Some(1) }, constraints: vec![], members: members(r) }),
+        1 => ASN1Type::Set(SequenceOrSet { components_of: vec!["B".into()], extensible: None, constraints: vec![], members: members(r) }),
+        2 => ASN1Type::Choice(Choice { extensible: None, constraints: vec![], options: (0..1 + r.next(3)).map(|i| ChoiceOption { name: format!("o{i}"), tag: c03_tag(r),
+                ty: c03_type(r, depth.saturating_sub(1)), constraints: vec![], is_recursive: false }).collect() }),
+        3 => ASN1Type::SequenceOf(SequenceOrSetOf { constraints: vec![], element_tag: c03_tag(r), element_type: Box::new(c03_type(r, depth.saturating_sub(1))), is_recursive: false }),
+        4 => ASN1Type::SetOf(SequenceOrSetOf { constraints: vec![], element_tag: c03_tag(r), element_type: Box::new(c03_type(r, depth.saturating_sub(1))), is_recursive: false }),
+        5 => ASN1Type::Boolean(Boolean { constraints: vec![] }),
+        6 => ASN1Type::Null,
+        _ => ASN1Type::ElsewhereDeclaredType(DeclarationElsewhere { parent: None, module: None, identifier: "Other".into(), constraints: vec![] }),
+    }
+}
+fn c03_apply_tagenv(rep: &mut Rep) {
+    use rasn_compiler::verif_hooks::{hook_apply_tagenv_tld, hook_apply_tagenv_type, hook_tagenv_add};
+    let envs = [TaggingEnvironment::Automatic, TaggingEnvironment::Implicit, TaggingEnvironment::Explicit];
+    for a in envs { for b in envs {
+        rep.check("C03.tagenv_add.keyword_wins_else_module_default", hook_tagenv_add(&a, &b) == c03_combine(a, b), || format!("default={a:?} keyword={b:?} -> {:?}", hook_tagenv_add(&a, &b)));
+    } }
+    let mut r = Lcg(0x5eed);
+    for n in 0..30000 {
+        let env = envs[n % 3];
+        let ty = c03_type(&mut r, 1 + n % 3);
+        let want = c03_expected(&ty, env);
+        let mut got = ty.clone();
+        hook_apply_tagenv_type(&mut got, &env);
+        let ok = got == want;
+        for name in ["C03.type_apply.every_tag_resolved_at_every_depth_and_nothing_else_changes", "C03.type_apply.sequence_components_done_so_far",
+                     "C03.type_apply.set_components_done_so_far", "C03.type_apply.choice_alternatives_done_so_far", "C03.type_apply.safety"] {
+            let relevant = match name {
+                n if n.contains("sequence_components") => matches!(ty, ASN1Type::Sequence(_)),
+                n if n.contains("set_components") => matches!(ty, ASN1Type::Set(_)),
+                n if n.contains("choice_alternatives") => matches!(ty, ASN1Type::Choice(_)),
+                _ => true,
+            };
+            if relevant { rep.check(name, ok, || format!("module default {env:?}; type before: {ty:?}; after: {got:?}; expected: {want:?}")); }
+        }
+        // the same tree as a tagged type assignment
+        let tag = c03_tag(&mut r);
+        let mut tld = ToplevelDefinition::Type(ToplevelTypeDefinition { comments: "c".into(), tag: tag.clone(), name: "T".into(), ty: ty.clone(), parameterization: None, module_header: None });
+        hook_apply_tagenv_tld(&mut tld, &env);
+        if let ToplevelDefinition::Type(t) = &tld {
+            rep.check("C03.tld_apply.assignment_tag_resolved_with_class_and_number_kept", t.tag == c03_res(&tag, env), || format!("module default {env:?}; assignment tag {tag:?} -> {:?}", t.tag));
+            rep.check("C03.tld_apply.every_tag_below_resolved_at_every_depth", t.ty == want, || format!("module default {env:?}; type before: {ty:?}; after: {:?}; expected: {want:?}", t.ty));
+            rep.check("C03.tld_apply.nothing_else_changes", t.comments == "c" && t.name == "T" && t.parameterization.is_none(), || format!("{t:?}"));
+        } else {
+            rep.check("C03.tld_apply.nothing_else_changes", false, || "type assignment turned into another kind of definition".into());
+        }
+    }
+    let v = ToplevelDefinition::Value(ToplevelValueDefinition { comments: String::new(), name: "v".into(), associated_type: ASN1Type::Null, parameterization: None, value: ASN1Value::Null, module_header: None });
+    let mut v2 = v.clone();
+    hook_apply_tagenv_tld(&mut v2, &TaggingEnvironment::Explicit);
+    rep.check("C03.tld_apply.values_classes_objects_untouched", v2 == v, || format!("{v2:?}"));
 }
